@@ -380,7 +380,7 @@ def run_cli_case(case, worlds, tmpdir):
             argv += ["--eigvecs"]
     with open(os.path.join(d, "band.conf"), "w") as f:
         f.write("\n".join(conf) + "\n")
-    r = run_cli("phonopy", argv + ["band.conf"], d)
+    r = run_cli("phonopy", ["band.conf"] + argv, d)      # the conf file first: --band-labels takes any number of words
     fn = os.path.join(d, "band.yaml")
     out = dict(id=case["id"], world=w.name, argv=argv, conf=conf)
     if r["code"] != 0 or not os.path.exists(fn):
